@@ -100,7 +100,10 @@ func bit6(b int64) byte {
 // behaves as the null graph.
 func IsValid(g Graph) bool {
 	n := int(numberOf(g))
-	if n < 0 {
+	if n < 0 || n > 3*len(g) {
+		// n^2 bits need at least n^2/6 bytes, so a valid
+		// encoding has n <= 3*len(g). This also keeps n*n
+		// from overflowing.
 		return false
 	}
 	size := (n*n + 5) / 6 // ceil(n^2 / 6)
